@@ -443,3 +443,10 @@ _SURFACE = {
 }
 for _pid, _txt in _SURFACE.items():
     PROPS[_pid]["rule"] = PROPS[_pid]["rule"] + "; surface and failure paths: " + _txt
+
+# what the progress reporter's calls and Run.Do's calls on the shared Result do to each other
+# (nested read locks against a pending writer) wedges the runner's goroutine when it goes wrong:
+# the lock stage of C05 also decides that part of C18; whole runs (interrupted ones included)
+# whose totals are compared with what the bodies executed also decide C17's "cover all iterations"
+PROPS["C18"]["stages"] = PROPS["C18"]["stages"] + [st for st in PROPS["C05"]["stages"] if st["name"] == "c05locks"]
+PROPS["C17"]["stages"] = PROPS["C17"]["stages"] + [st for st in PROPS["C01"]["stages"] if st["name"] == "c01runs"]
